@@ -122,6 +122,8 @@ type FnTrans struct {
 	constArrs map[string]string
 	constElemSort map[string]string // const global name -> element sort
 	constDefs     map[string]bool   // defined names whose term is built from const-slice names
+	fnNames       map[string]bool   // names of the function's variables (stale-contract detection)
+	staleClauses  []string          // clauses that mention a name the function no longer has
 	globalsUsed map[string]bool
 }
 
